@@ -2,13 +2,18 @@ from props import prop
 
 prop("C06", "exploration",
      "rapid draws histories on ONE delegate connection: 1..6 intent requests (1..3 targets that differ in host, port or user or "
-     "not at all; grant types shell/command/acme/unknown values; reserved byte; times 0..2^63-1; SNI label 0..252 bytes of any id "
+     "not at all; grant types shell/command/acme/unknown values; reserved byte; times 0..2^63-1, the VALIDITY WINDOW in either order and in "
+     "four cases of ten on purpose empty (start = expiry), inverted by 1 s .. a day or arbitrarily (both ends after everything the virtual "
+     "clock reaches: a target only refuses an expiry in the past) or the project delegate's own now .. now + 1 min; SNI label 0..252 bytes of any id "
      "type, user 0..255, command 0..255, delegate certificates up to the 660-byte maximum; exact repetitions), a principal "
      "decision per request (approve / refuse with a 0..200-byte reason; the callback records what it was shown), a behaviour of "
      "the target-setup function per request (ok / fails before the handshake / fails after the callback accepted; it invokes the "
      "verification callback inside setup and fails if that fails, as hopclient.setupTargetClient does), a target behaviour per "
      "forwarded intent (scripted: confirm / deny(reason) / close / garbage+close / close mid-message; or the real "
-     "StartTargetInstance with recording checkIntent/addAuthGrant stubs that accept / refuse / fail to store), a TARGET ANSWER DELAY "
+     "StartTargetInstance with recording checkIntent/addAuthGrant stubs that accept / refuse / fail to store; an addAuthGrant that does not "
+     "fail hands the intent to a REAL authgrants.AuthgrantMapSync and returns nil, as hopserver.HopServer.AddAuthGrant does behind its "
+     "configuration checks, and after the history that store is drained the way a server does when the delegate turns up - "
+     "RemoveAuthgrants(user, delegate key) for every request of the case), a TARGET ANSWER DELAY "
      "per request (in a third of the cases each target - scripted or real - takes a drawn 0, 1, 4, 6, 30 or 120 virtual seconds before "
      "it acts on that request's intent communication; the delegate waits as long as it takes for every answer it is owed; what a target "
      "does is attributed to the request that was in flight when the principal wrote the bytes it is acting on, so a late answer still "
@@ -27,7 +32,9 @@ prop("C06", "exploration",
      "request: no byte is written on a target connection without an earlier accepting callback invocation for that request, none "
      "at all if the callback refused; forwarded bytes decode to the approved and to the requested intent field for field; the "
      "delegate reads exactly one answer before one virtual second of silence; a confirmation only if the target confirmed that "
-     "request (real target: addAuthGrant ran and returned nil). A malformed message is not a request: nothing is written on a target "
+     "request (real target: addAuthGrant ran and returned nil, AND the drain of the real grant store yields, under the request's user and "
+     "delegate key, a grant equal to the request in type, start, expiry, delegate certificate and associated data - one stored grant answers "
+     "for one confirmation). A malformed message is not a request: nothing is written on a target "
      "connection and no confirmation is read for it, and the delegate reads at most one answer to it; the requests behind a malformed "
      "message are not judged one by one (the statement is silent about them, the project's principal hangs up), only by count: at no time "
      "has the delegate read more answers than the number of messages it has completely written. Non-trivial = >=2 requests with at least one refusal and one "
@@ -35,7 +42,15 @@ prop("C06", "exploration",
      "index, observed callback/setup/target events, target delay where the request reached a target); decisions and target failures count "
      "only for the requests in front of a malformed message. Every connection of a case hands its bytes to the reader in a drawn delivery pattern (whole, one byte per "
      "Read, keyed chunks of 1..7 bytes, optionally the last bytes together with io.EOF - all allowed by io.Reader and done by "
-     "tubes). Transport part (unit approval-callback): the principal approves the FIRST intent of a delegate "
+     "tubes). CONCURRENT INSTANCES (units concurrent-instances, also under the race detector): a principal process serves every delegate "
+     "connection with an instance of its own at the same time (hopclient.HandleTubes), so 2..4 complete histories as above - each with "
+     "its own delegate connection, callback, setup function, targets and store - run in ONE bubble; the virtual clock releases them "
+     "together (equal start offsets: real parallelism) or 1..9 ns apart, and every Write the principal or the real target instance issues "
+     "on a connection is held a keyed 0..HoldMax (0, 1, 3, 8, 20) virtual ns before the connection takes the bytes (a Write may take its "
+     "time; meanwhile everybody else runs until blocked), so writes of one instance are pending while the others read, decide, serialise "
+     "and write. Every instance is judged on its own by the oracle above (signature suffix :concurrent-instances); non-trivial there = at "
+     "least two instances forwarded an intent; distinct by start offsets, holds and the per-instance keys. "
+     "Transport part (unit approval-callback): the principal approves the FIRST intent of a delegate "
      "connection through the additional verify callback of its handshake with the target (hopclient.setupTargetClient); the whole "
      "matrix mode {discoverable, hidden} x InsecureSkipVerify x trust {store, authorized key, both, neither} x expected name "
      "{server's, none, other} x callback decision {approve, refuse, approve iff target key, refuse iff target key} (192 cases) plus "
@@ -62,8 +77,16 @@ prop("C06", "exploration",
       "requests by order (they carry no tag); the principal handles one request at a time (as read in principal.go: it reads the "
       "delegate connection only to fetch a request and writes on it only to answer), which is what the attribution inside a group uses",
       "a target that misbehaves always ends by answering or closing (a target that stalls forever cannot be answered for)",
-      "the target-setup model is hopclient.setupTargetClient as read in the source; a failed setup returns no connection"],
+      "the target-setup model is hopclient.setupTargetClient as read in the source; a failed setup returns no connection",
+      "'stored' is judged the way the grant is used: what hopserver hands the delegate's later connection is RemoveAuthgrants(user, delegate key) "
+      "of the server's AuthgrantMapSync; the addAuthGrant model (store in the map, return nil) is hopserver.HopServer.AddAuthGrant as read in the "
+      "source, whose other checks are configuration only; the statement sets no condition on the validity window of a grant that is confirmed",
+      "a Write on a connection may block for any length of time before the bytes are taken (io.Writer only promises that the slice is not "
+      "retained AFTER the call returns; a congested tube blocks its writers); principal instances of one process share nothing by design"],
      [dict(name="histories", pkg="authgrants", run="^TestVerifC06Histories$", shards=dict(quick=12, thorough=16), thorough_scale=25),
+      # 2..4 principal instances of one process at the same time, writes held (also under the race detector)
+      dict(name="concurrent-instances", pkg="authgrants", run="^TestVerifC06ConcurrentInstances$", shards=dict(quick=8, thorough=16), thorough_scale=20),
+      dict(name="concurrent-instances-race", pkg="authgrants", race=True, run="^TestVerifC06ConcurrentInstances$", shards=dict(quick=8, thorough=8), thorough_scale=10),
       dict(name="approval-callback", pkg="transport", run="^TestVerifC06ApprovalCallback(Random)?$", shards=dict(quick=4, thorough=8), thorough_scale=20),
       # the grant store behind the target's addAuthGrant callback (hopserver.HopServer.AddAuthGrant): shared with C05 / C07, mode "store" only
       dict(name="grant-store", pkg="hopserver", run="^TestVerifC07ConcurrentAdmission$", shards=dict(quick=6, thorough=16), thorough_scale=20),
